@@ -414,4 +414,14 @@ def required_labels(tier):
             "mixed", "mixed:and", "mixed:or", "mixed:not", "mixed:list"]
 
 
-KNOWN_PREDICATES = {}
+def _f11_bare_tag_with_limit(case, detail, info):
+    """F11: under auto-detection ONE bare positive tag with a ':N' limit suffix (no '@'/'-'/'~'
+    prefix needed, no comma, no second word) is read as the v2 literal 'tag:N'."""
+    if case.get("kind") != "v1" or case.get("protocol") != "auto":
+        return False
+    groups = case.get("groups") or []
+    lits = [lit for group in groups for lit in group]
+    return len(lits) == 1 and not lits[0].get("neg") and lits[0].get("lim") is not None
+
+
+KNOWN_PREDICATES = {"single_bare_tag_with_limit_under_auto_detect": _f11_bare_tag_with_limit}
